@@ -11,6 +11,7 @@ import (
 	"slices"
 	"sort"
 	"strings"
+	"syscall"
 	"time"
 
 	"reduction.dev/reduction/dkv/mergesort"
@@ -564,7 +565,21 @@ type sitem struct{ K, Tag uint64 }
 
 var hung = map[string]bool{}
 
+// cpuSeconds is the CPU time (user + system) this process has consumed so far.
+func cpuSeconds() float64 {
+	var ru syscall.Rusage
+	if err := syscall.Getrusage(syscall.RUSAGE_SELF, &ru); err != nil {
+		return 0
+	}
+	return float64(ru.Utime.Sec+ru.Stime.Sec) + float64(ru.Utime.Usec+ru.Stime.Usec)/1e6
+}
+
 // Execute runs one case under a watchdog: a non-terminating implementation is reported like a panic (with the case as replay).
+//
+// Timing: the watchdog does not measure elapsed time but the CPU time the process has CONSUMED since the case started (polled
+// every 250 ms): a history of a few dozen operations on an in-memory structure needs milliseconds of CPU, so 20 s of CPU spent
+// inside one case means the implementation loops. A case that is merely starved by other processes consumes no CPU while it
+// waits and can therefore never be declared non-terminating, whatever the load (hx's 180 s no-progress detector stays behind it).
 func (e eng) Execute(mode string, c *hx.Case) (*hx.Result, error) {
 	type out struct {
 		res *hx.Result
@@ -586,15 +601,22 @@ func (e eng) Execute(mode string, c *hx.Case) (*hx.Result, error) {
 		}()
 		o.res, o.err = e.execute(mode, c)
 	}()
-	select {
-	case o := <-ch:
-		if o.pan != nil {
-			panic(o.pan)
+	start := cpuSeconds()
+	tick := time.NewTicker(250 * time.Millisecond) // pacing of the poll only
+	defer tick.Stop()
+	for {
+		select {
+		case o := <-ch:
+			if o.pan != nil {
+				panic(o.pan)
+			}
+			return o.res, o.err
+		case <-tick.C:
+			if cpuSeconds()-start > 20 {
+				hung[stName] = true
+				panic("the implementation consumed more than 20 s of CPU on this history without terminating")
+			}
 		}
-		return o.res, o.err
-	case <-time.After(20 * time.Second):
-		hung[stName] = true
-		panic("the implementation did not terminate within 20 s on this history")
 	}
 }
 
